@@ -215,6 +215,24 @@ DETECT.update({
 })
 
 
+# ---- sixth round (12 properties, ids -j; prompt TEMPLATE6: damage that only shows through a rarely consulted observable
+# or under a non-default configuration) ----
+DETECT.update({
+    "C02-j": (["C02", "C01"], "DETECTED", "coinbase total accumulated in place in the first output's amount: the cache entry of the first genesis / award output holds the sum of all outputs (selection offers it, a spend of it is admitted)"),
+    "C04-j": (["C04", "C06"], "DETECTED", "a side branch growing below the trunk keeps its inner blocks in the branch-tip table"),
+    "C05-j": (["C17"], "MISSED by C05", "a multi-block walk that fails at a later block leaves the in-memory irreversible height behind the persisted one; needs a slide window and such a walk after the height moved: C17's mix (windows, walks into invalid blocks) reports it in the quick tier. C05 now also draws a window (1 history in 4) but rarely builds that walk in 300 histories"),
+    "C06-j": (["C06"], "MISSED", "needed a slide window in the crash scenarios and a bound on the PERSISTED irreversible height of every image: never below the value before the in-flight operation, never above the value after it, never ahead of the blocks the image's state has applied (hx.CheckCrashImage)"),
+    "C07-j": (["C11"], "MISSED by C07 and C11", "threshold comparison rounded to a 0.01 grid; all weights of the evaluator box were tenths. C11 now also enumerates weights {4,333,334,996}/1000 with accept values {667,670,1000}/1000 (c11Rule.Den). C07 was not changed (the threshold arithmetic is C11's part of the pipeline)"),
+    "C08-j": (["C08"], "MISSED", "needed (1) the verifying node's core count as a drawn input (ledger.NumCPU in {1,2,3,4} for half of the blocks: bodies longer than the core count and not a multiple of it), (2) a body altered under its unchanged txid at EVERY position, and (3) the oracle that VerifyBlock refuses such a body (until now only 'MakeTransactionID != txid' was asserted for these mutants - a leftover from before fix 52dadae)"),
+    "C09-j": (["C09"], "MISSED", "needed disk / xfee gas rates unlike each other (drawn from {1,3,7,100}) and an independent gas figure: the gas a pre-execution reports is recomputed resource by resource from the resource use it reports (PreExec and verification agree with each other under the change)"),
+    "C13-j": (["C13", "C17"], "MISSED by C13", "PlayForMiner no longer publishes the staged meta unless the block has a timer transaction: only the producer's in-memory irreversible height is stale. C17 reported it at once; C13 ran with window 0 only and now draws a window for half of its histories (CheckState compares the height after every minereal)"),
+    "C15-j": (["C15"], "DETECTED", "CommitQC keeps its old value when the three-chain has a view gap: the commit marker is not the successive ancestor"),
+    "C17-j": (["C17"], "DETECTED", "NewMeta clones the pending copy before the persisted irreversible height is loaded: after a restart the first non-raising publication resets the height to 0"),
+    "C18-j": ([], "MISSED", "NOT DETECTED: the change is dead code unless the package-level switch ledger.DisableTxDedup is true, and nothing in the repository (no configuration loader, no caller) ever sets it; the checks run the ledger as its own loaders configure it. With the switch on, HEAD itself no longer refuses a trunk block that repeats a confirmed transaction, which the C04 / C18 models treat as refused - flipping it inside the harness would need a second model of the duplicate rule"),
+    "C20-j": (["C20"], "DETECTED", "per-subscriber goroutine captures the loop variable: one subscriber gets every delivery, filtered-out subscribers can get one"),
+})
+
+
 def main():
     for sid in sorted(os.listdir(os.path.join(ROOT, "seeded"))):
         d = os.path.join(ROOT, "seeded", sid)
